@@ -122,7 +122,10 @@ def decode_multipart(content_type, payload):
 
 def make_doc(version, param, body_kind, base_path, trailing_slash=False):
     template = "/op/{v}/end" if param["in"] == "path" else "/op"
-    if trailing_slash:
+    if trailing_slash == "colon":
+        # a colon in the first segment (custom methods): not a URL scheme
+        template = "/{v}:cancel" if param["in"] == "path" else "/v1:ping"
+    elif trailing_slash:
         # a template may end in a slash (and the variable may be its last segment before it)
         template = "/op/{v}/" if param["in"] == "path" else "/op/"
     op = {"parameters": [param], "responses": {"200": {"description": "ok"}}}
@@ -408,6 +411,46 @@ class AsgiCapture:
         await send({"type": "http.response.body", "body": b"{}"})
 
 
+def falsy_query_probe(emit, server, session):
+    """Explicit cases whose query holds an empty object next to other falsy values: every value keeps its own text."""
+    import schemathesis
+
+    doc = {
+        "openapi": "3.0.2",
+        "info": {"title": "t", "version": "1"},
+        "paths": {
+            "/q": {
+                "get": {
+                    "parameters": [
+                        {"name": "o", "in": "query", "schema": {"type": "object"}},
+                        {"name": "page", "in": "query", "schema": {"type": "integer"}},
+                        {"name": "flag", "in": "query", "schema": {"type": "boolean"}},
+                        {"name": "s", "in": "query", "schema": {"type": "string"}},
+                    ],
+                    "responses": {"200": {"description": "ok"}},
+                }
+            }
+        },
+    }
+    schema = schemathesis.openapi.from_dict(doc)
+    schema.base_url = server.url
+    operation = schema["/q"]["GET"]
+    for query in ({"o": {}, "page": 0, "flag": False, "s": ""}, {"page": 0, "flag": False}, {"o": {}, "page": 7, "flag": True, "s": "x"}):
+        before = len(server.log)
+        try:
+            operation.Case(query=dict(query)).call(session=session)
+        except Exception:
+            continue
+        log = server.snapshot()
+        if len(log) <= before:
+            continue
+        emit.count("falsy_query_probes")
+        got = dict(parse_qsl(log[-1]["query"], keep_blank_values=True))
+        for name, want in (("page", str(query.get("page"))), ("flag", "true" if query.get("flag") else "false")):
+            if name in query and got.get(name) not in (want, want.capitalize()):
+                emit.viol("C06/query-value-not-recovered:falsy-next-to-empty-object", f"{name} = {query[name]!r} arrived as {got.get(name)!r} in {log[-1]['query']!r}", {"query": {k: repr(v) for k, v in query.items()}})
+
+
 def run_shard(spec, emit):
     import hypothesis
     from hypothesis import HealthCheck, Phase, given, settings
@@ -429,13 +472,15 @@ def run_shard(spec, emit):
     samples = 0
     session = requests.Session()
     with RecordingServer(Script()) as server:
+        if shard % 4 == 0:
+            falsy_query_probe(emit, server, session)
         for key, version, param, kind in jobs:
             for body_kind in (None, rng.choice(["json", "form", "text", "multipart", "jsonfalsy"])):
                 if time.monotonic() > deadline:
                     emit.count("jobs_skipped_budget")
                     continue
                 base_path = rng.choice(["", "/api", "/api/v1"])
-                doc, template, method = make_doc(version, param, body_kind, base_path if version == "2.0" else "", trailing_slash=rng.random() < 0.25)
+                doc, template, method = make_doc(version, param, body_kind, base_path if version == "2.0" else "", trailing_slash=rng.choice([False, False, False, True, "colon"]))
                 try:
                     schema = schemathesis.openapi.from_dict(doc)
                     use_wsgi = rng.random() < 0.2
@@ -612,7 +657,7 @@ def wsgi_part(rng, emit, capture, tier):
     matrix = [m for m in operations_matrix() if m[1] == "3.0"]
     for key, version, param, kind in rng.sample(matrix, 8 if tier == "quick" else 40):
         body_kind = rng.choice(["json", "form", "multipart", "text", "jsonfalsy"])
-        doc, template, method = make_doc(version, param, body_kind, "", trailing_slash=rng.random() < 0.35)
+        doc, template, method = make_doc(version, param, body_kind, "", trailing_slash=rng.choice([False, False, True, "colon"]))
         flavour = rng.choice(["wsgi", "asgi"])
         app = WsgiCapture() if flavour == "wsgi" else AsgiCapture()
         try:
